@@ -27,6 +27,7 @@ from automata.fa.dfa import DFA
 
 from harness import gen
 from harness import dfa_query_lib as L
+from harness.common import guarded as case_guard
 from harness.common import Ctx, InfraError, Toks, call, enc_dfa, enc_word, toks
 from harness.ops import C14 as S
 
@@ -268,6 +269,7 @@ def describe(d: DFA, other: DFA, hist):
     return dict(automaton=repr(d), other=repr(other), history=[{k: v for k, v in q.items()} for q in hist])
 
 
+@case_guard
 def run_history(ctx: Ctx, d: DFA, other: DFA, hist, origin: str, kmax: int):
     enc, st, sy = enc_dfa(d)
     inst = d.copy()
